@@ -87,7 +87,8 @@ FlowOnly == Outcome(Fold(FState0, fh)) = Outcome(Fold(FState0, Canon(fh)))
 \* a timing line's defaults are those of [General] when the line is read: putting every [General] item first
 \* gives the same control points only if no [General] item followed a timing line that used a default
 GeneralFirst(h) == Sel(h, {"mode", "bank", "vol"}) \o Sel(h, {"tl"})
-UsesDefault(k) == Items[k].kind = "tl" /\ FlowLines[Items[k].v].nf < 6
+\* (a bank field outside 0..3 falls back to the [General] bank as well - found by the randomised values)
+UsesDefault(k) == Items[k].kind = "tl" /\ (FlowLines[Items[k].v].nf < 6 \/ FlowLines[Items[k].v].bank \notin 0..3)
 LateGeneral(h) == \E i, j \in 1..Len(h) : i < j /\ UsesDefault(h[i]) /\ Items[h[j]].kind \in {"bank", "vol"}
 EarlyGeneralIsEnough ==
     (~LateGeneral(fh) /\ ~\E i, j \in 1..Len(fh) : i < j /\ Items[fh[i]].kind = "tl" /\ Items[fh[j]].kind = "mode")
